@@ -3,7 +3,7 @@
    every container exactly as append_trail does; ItemKey for dict keys). *)
 From Coq Require Import List ZArith Bool String.
 From AV Require Import Model.Val Model.Load Proofs.LoadProofs Proofs.TrailProofs Proofs.CompleteProofs.
-From AV Require Model.Layout Model.CrownSem Proofs.CrownProofs Proofs.CrownTrails Proofs.CrownOnce.
+From AV Require Model.Layout Model.CrownSem Proofs.CrownProofs Proofs.CrownTrails Proofs.CrownOnce Proofs.LayoutWf.
 Import ListNotations.
 
 (* FIRST and ALL: following the (concatenated) trail of every reported leaf error from the root of the input datum
@@ -130,12 +130,19 @@ Proof. exact CrownTrails.model_disable_no_trail. Qed.
 Print Assumptions C05_model_disable_no_trail.
 
 (* "reported exactly once": in a crown whose mapping nodes have pairwise distinct keys (CrownProofs.wf; the crown
-   builder produces only such crowns before re-ordering: LayoutProofs.uk_build) the errors ALL collects are pairwise different - class with its key set / length
+   builder produces only such crowns: C03_accepted_layout_has_distinct_keys) the errors ALL collects are pairwise different - class with its key set / length
    and trail - so, with the completeness theorem above, every offence is reported once and only once *)
 Theorem C05_model_all_errors_are_distinct : forall (info : CrownSem.finfos) (pol : Layout.policy) c d es, CrownProofs.wf c ->
   CrownSem.load info pol CrownSem.All c d = CrownSem.Group es -> NoDup es.
 Proof. exact CrownOnce.model_all_errors_are_distinct. Qed.
 Print Assumptions C05_model_all_errors_are_distinct.
+
+(* the same for every layout the builder accepts, with no hypothesis left on the crown *)
+Theorem C05_accepted_layout_reports_each_offence_once : forall stack fs c paths (info : CrownSem.finfos) (pol : Layout.policy) d es,
+  Layout.make_layout stack false fs = Layout.Good c paths ->
+  CrownSem.load info pol CrownSem.All c d = CrownSem.Group es -> NoDup es.
+Proof. exact LayoutWf.accepted_layout_reports_each_offence_once. Qed.
+Print Assumptions C05_accepted_layout_reports_each_offence_once.
 
 (* non-vacuity: a flattened layout with a list node and three independent faults plus an unknown key *)
 Example C05_model_trails_example :
